@@ -1,11 +1,13 @@
 """C11 - every modifier changes only its own component."""
 import ipaddress
 import itertools
+import pickle
 
 import idna
 from hypothesis import strategies as st
 
 from .. import gen, ref
+from ..observe import diff, observe
 
 RULE = ("exhaustive base matrix: scheme {http,https,ws,wss,ftp,other,none} x userinfo {none,u,u:,u:p,:p,escaped} x host {reg-name, trailing dot, IDN, "
         "IPv4, IPv6, IPv6+zone} x port {none, scheme default, 0, other} x path {empty,/,segments,escaped,trailing /} x query x fragment (20160 bases) x every "
@@ -92,6 +94,8 @@ def check_mod(ctx, backend, base, mod, enumerated=False):
         if name == "with_name" and (not a[0] or "/" in a[0]):
             ctx.case(False, label="skipped:not-applicable")
             return
+    # every accessor of the base has been read before the modifier runs: nothing memoised on the base may travel into the result
+    observe(B)
     nontrivial = ":" in (B.raw_host or "") or B.explicit_port is not None or (B.raw_authority.count("@") and (B.raw_user is None or B.raw_password == ""))
     try:
         if name == "div":
@@ -187,6 +191,13 @@ def check_mod(ctx, backend, base, mod, enumerated=False):
         if B._path == "":
             want["raw_path"] = fr["raw_path"] if fr["raw_path"] in ("", "/") else ""
         ctx.check(fr == want, "relative() must keep exactly path, query and fragment", observed=fr, expected=want, entry=e)
+    # ... and every accessor of the result is a function of the result's own five parts (a cache-free twin reads the same)
+    if R is not B:
+        o1, o2 = observe(R), observe(pickle.loads(pickle.dumps(R)))
+        if o1 != o2:
+            d = diff(o1, o2)
+            ctx.check(False, "an accessor of the result differs from the same accessor of its cache-free twin (a value of the base travelled into the result)",
+                      observed={"fields": d, "base": s, "result": str(R), "route": "mod", "raw_authority": R._netloc}, expected="identical", entry=e + ":" + ",".join(sorted(d))[:60])
     # the result re-parses to an equal URL
     try:
         again = Y.URL(str(R))
